@@ -3,6 +3,7 @@ from .. import gen, rm
 from ..rm import q, r, F1, F2
 
 ID = 'C10'
+PERTURB = (60, 400)      # cases re-run in the repeat / parallel perturbation passes (quick, thorough): decoders and square roots are cheap
 EXES = ['release']
 RULE = ('each case encodes P = [k]G and -P (so both parities of y occur) of G1 or G2, held in each representation (z=1, library '
         'Jacobian, lambda-rescaled), in the raw, 0x04-prefixed and 0x02/0x03-prefixed formats; the expected bytes are CONSTRUCTED by '
